@@ -380,6 +380,10 @@ func c08(c *an.Check) {
 				return locked && !unl
 			}}}})
 	}
+	// a buffer handed back to the arena is not touched again (another WriteTo / the pump may already own it)
+	if n := c.NotUsedAfterRelease("OWNERSHIP", "rwc arena buffers are not used after release", c.P.PkgFuncs("util/rwc")); n < 3 {
+		c.Undecided("OWNERSHIP", "rwc arena buffers are not used after release", nil, fmt.Sprintf("only %d arena releases found (anchor drift)", n))
+	}
 	lockHeld(rm, "readMtx", func(ins ssa.Instruction) bool { return an.IsCallTo(ins, cReadFull) }, "packet.Session.RecvMsg stream reads")
 	lockHeld(sm, "sendMtx", func(ins ssa.Instruction) bool { return isInvokeOf(ins, "", "Write") }, "packet.Session.SendMsg stream write")
 	// SendMsg framing
